@@ -21,7 +21,18 @@ leg FetchSearchResult must be Done and equal Searcher.SearchDocs over the captur
 reference answer; the directory at the end must be the model's.  Where the last captured fraction is
 active the real goroutine is also really interrupted through the verif hook pf.read.  A fifth of the
 jobs also go through search.Ingestor.StartAsyncSearch/FetchAsyncSearchResult and the store handlers,
-with a store restart.  (B2) one real request runs under strace; the observed system calls on the
+with a store restart.  (B1p, the proxy over several shards - AsyncSearch.tla "the proxy over several
+shards": the store above is one shard of HotStores.Shards at any position, the other shards are abstract;
+PFetch transcribes the shard / replica loops and the merge of proxy/search/async.go; TLC decides
+PDoneImpliesSyncResult, PSyncIsRef, PPartialWithinFinal, PMergeIsUnion, PDoneIffAllDone, PDoneIsStable,
+PEventuallyDone for 2 and 3 shards, and must refute the rule "done = flag of the last shard that
+answered") a quarter of the jobs with >= 3 documents deal their fractions to 2 or 3 real stores, really
+interrupt every store before its last fraction, record the real handler's answer for every "k of n
+processed" and for done (after a real restart that resumes the request), and run the real
+search.Ingestor.FetchAsyncSearchResult live and over EVERY vector of per-shard states the model emits
+(EmitPVec): Done must be the model's, a done answer must be the proxy's synchronous Search over all
+shards and the AggCases reference, a not-done answer exactly the union of what the shards gave; some
+shards get a first replica that never saw the request.  (B2) one real request runs under strace; the observed system calls on the
 request's directory must be the model's operation order for every file (incl. both fsyncs)."""
 import hashlib
 import json
@@ -50,6 +61,49 @@ def _must_refute(ctx, cfg, inv):
     if r.violated not in inv:
         raise vlib.Infra("non-vacuity self-test failed: %s should violate %s but TLC said violated=%s ok=%s" % (cfg, inv, r.violated, r.ok))
     return {"cfg": cfg, "refuted": r.violated}
+
+
+CLASSES = ("k0", "some", "all", "done")
+
+
+def _cls(sh):
+    if sh["done"]:
+        return "done"
+    if sh["k"] == 0:
+        return "k0"
+    return "some" if sh["k"] < sh["n"] else "all"
+
+
+def _proxy_vectors(ctx, quick):
+    """The proxy-level design for 2 and 3 shards; every state in which the client may fetch prints the
+    vector of per-shard states with the answer PFetch gives (EmitPVec).  Reduced to one entry per vector
+    of classes; the spec must give every vector one done flag."""
+    table, raw = {}, 0
+    cfgs = ["AsyncSearch_shards2.cfg", "AsyncSearch_shards3.cfg"] + ([] if quick else ["AsyncSearch_shards2t.cfg"])
+    for cfg in cfgs:
+        r = vlib.run_tlc(ctx, "AsyncSearch.tla", cfg, timeout=3000)
+        if r.violated:
+            raise vlib.Infra("TLC: %s violated in AsyncSearch.tla (%s) - the required design itself is refuted" % (r.violated, cfg))
+        vlib.require_tlc_ok(r, "AsyncSearch " + cfg)
+        raw += len(r.cases)
+        for c in r.cases:
+            cls = [_cls(sh) for sh in c["shards"]]
+            key = (c["ns"],) + tuple(cls)
+            if not (c["found"] and c["union"] and c["within"]):
+                raise vlib.Infra("AsyncSearch.tla emitted an observation its own invariants exclude: %s" % c)
+            e = table.setdefault(key, {"ns": c["ns"], "cls": cls, "done": c["done"], "sync": c["sync"], "union": True, "within": True, "ghosts": False})
+            if e["done"] != c["done"]:
+                raise vlib.Infra("AsyncSearch.tla gives two done flags for the shard vector %s" % (key,))
+            e["sync"] = e["sync"] and c["sync"]
+            e["ghosts"] = e["ghosts"] or any(c["ghost"])
+    for e in table.values():
+        if e["done"] and not e["sync"]:
+            raise vlib.Infra("AsyncSearch.tla: done vector %s without the synchronous result" % e)
+    for ns in (2, 3):
+        n = sum(1 for k in table if k[0] == ns)
+        if n != len(CLASSES) ** ns:
+            raise vlib.Infra("AsyncSearch.tla emitted %d of %d shard vectors for %d shards" % (n, len(CLASSES) ** ns, ns))
+    return [table[k] for k in sorted(table)], raw
 
 
 def _behaviours(ctx, quick):
@@ -168,11 +222,18 @@ def run(ctx):
     # 1. the design
     _design(ctx, "AsyncSearch_design.cfg" if quick else "AsyncSearch_design3.cfg")
     _design(ctx, "AsyncSearch_corpora2.cfg" if quick else "AsyncSearch_corpora3.cfg")
+    _design(ctx, "AsyncSearch_shcorporaq.cfg" if quick else "AsyncSearch_shcorpora.cfg")
+    if not quick:
+        _design(ctx, "AsyncSearch_shards3t.cfg")
+    pvecs, praw = _proxy_vectors(ctx, quick)
+    pf = os.path.join(ctx.scratch, "pvecs.jsonl")
+    vlib.write_jsonl(pf, pvecs)
     # 2. non-vacuity of the invariants (spec mutations that must be refuted)
     ctx.cov["refuted_spec_mutations"] = [
         _must_refute(ctx, "AsyncSearch_mut_order.cfg", ("FinalFilesComplete",)),
         _must_refute(ctx, "AsyncSearch_mut_nosync.cfg", ("FinalFilesComplete",)),
         _must_refute(ctx, "AsyncSearch_mut_interval.cfg", ("DoneImpliesSyncResult", "PartialWithinFinal")),
+        _must_refute(ctx, "AsyncSearch_mut_donelast.cfg", ("PDoneImpliesSyncResult",)),
     ]
     # 3. behaviours
     behs, raw = _behaviours(ctx, quick)
@@ -193,12 +254,21 @@ def run(ctx):
     cases = cases[ctx.seed % step::step][:want]
     take = 6 if quick else 8
     jobs = []
+    nshard = {2: 0, 3: 0}
     for i, ln in enumerate(cases):
         hsh = int(hashlib.sha1(("%d:%d" % (ctx.seed, i)).encode()).hexdigest()[:8], 16)
-        jobs.append('{"case":%s,"take":%d,"pick":%d,"dup":%s,"sealLast":%s,"storeRestart":%s,"proxy":%s,"asc":%s,"pipe":%s}' % (
+        # the proxy over 2 / 3 shards: a quarter of the jobs whose corpus can fill two shards
+        shards, ghost, perm = 0, 0, 0
+        if (hsh >> 15) % 4 == 0 and ln.count('"mid"') >= 3:
+            shards = 2 + (hsh >> 17) % 2
+            if (hsh >> 18) % 2:
+                ghost = (hsh >> 19) % (1 << shards)
+            perm = (hsh >> 22) % 12
+            nshard[shards] += 1
+        jobs.append('{"case":%s,"take":%d,"pick":%d,"dup":%s,"sealLast":%s,"storeRestart":%s,"proxy":%s,"asc":%s,"pipe":%s,"shards":%d,"ghostMask":%d,"perm":%d}' % (
             ln, take, i * take // 2, "true" if i % 4 == 3 else "false", "true" if (hsh >> 1) % 2 else "false",
             "true" if (hsh >> 3) % 3 == 0 else "false", "true" if (hsh >> 6) % 5 == 0 else "false",
-            "true" if (hsh >> 9) % 2 else "false", "true" if (hsh >> 12) % 3 == 0 else "false"))
+            "true" if (hsh >> 9) % 2 else "false", "true" if (hsh >> 12) % 3 == 0 else "false", shards, ghost, perm))
     jf = os.path.join(ctx.scratch, "jobs.jsonl")
     with open(jf, "w") as fh:
         fh.write("\n".join(jobs) + "\n")
@@ -206,13 +276,25 @@ def run(ctx):
     tot = {"cases": 0, "evals": 0, "nontrivial": 0, "corpora": 0}
     chunk = 300    # a stopped in-process store leaks file descriptors: a fresh driver process every 300 stores
     covf = os.path.join(ctx.scratch, "covered.txt")
-    mism, summ, _ = vlib.run_cases(ctx, drv, ["-workers", str(vlib.NCPU), "-behs", bf, "-cov", covf], jf, label="async", timeout=3400, chunk=chunk)
+    pcovf = os.path.join(ctx.scratch, "pcovered.txt")
+    mism, summ, _ = vlib.run_cases(ctx, drv, ["-workers", str(vlib.NCPU), "-behs", bf, "-cov", covf, "-pvecs", pf, "-pcov", pcovf], jf,
+                                   label="async", timeout=3400, chunk=chunk)
     cov_ids = set()
     if os.path.exists(covf):
         with open(covf) as fh:
             cov_ids = set(fh.read().split())
     for k in tot:
         tot[k] += summ[k]
+    pcov, pstat = set(), {}
+    if os.path.exists(pcovf):
+        with open(pcovf) as fh:
+            for ln in fh:
+                if ln.startswith("#stats"):
+                    for kv in ln.split()[1:]:
+                        k, v = kv.split("=")
+                        pstat[k] = max(pstat.get(k, 0), int(v)) if k == "fds" else pstat.get(k, 0) + int(v)
+                else:
+                    pcov |= set(ln.split())
     for m in mism:
         kind = m.get("kind") or ("crash" if m.get("what") == "crash" else "other")
         sig = "c19:%s:%s" % ("dup" if (m.get("dup") or (m.get("case") or {}).get("dup")) else "nodup", kind)
@@ -232,6 +314,12 @@ def run(ctx):
     ctx.cov["behaviours_replayed_distinct"] = len(cov_ids)
     if len(cov_ids) < len(behs):
         vlib.log("[c19] note: %d of %d behaviours replayed" % (len(cov_ids), len(behs)))
+    ctx.cov["proxy_shards"] = {"vectors_emitted": praw, "vectors_distinct": len(pvecs), "vectors_replayed_distinct": len(pcov),
+                               "jobs": nshard, "driver": pstat}
+    if pstat.get("shardJobs", 0) and len(pcov) < len(pvecs):
+        vlib.log("[c19] note: %d of %d shard vectors replayed" % (len(pcov), len(pvecs)))
+    if sum(nshard.values()) and not mism and pstat.get("vectors", 0) == 0:
+        raise vlib.Infra("the shard stage replayed no vector")
     ctx.cov["evaluations"] = tot["evals"]
     ctx.cov["distinct_nontrivial"] = tot["nontrivial"]
     ctx.cov["exhaustive"] = True
@@ -249,5 +337,9 @@ def run(ctx):
         "crash images are built from the real files of completed legs (a partial result is kept or removed, a temp file is a whole/half/empty copy); the only real interruption is the one before the last captured fraction when it is the active one (hook pf.read); there is no hook inside mustWriteFileAtomic, its operation order is observed with strace on one request per run",
         "requests are the ones the store API can create (storeapi/grpc_async_search.go: Limit MaxInt32, WithTotal false, retention 24h); no ingestion into a captured fraction and no retention between start and done (DESIGN §9 #12 is outside the quantifier)",
         "the legacy `_not_exists` bucket of count aggregations is ignored on the proxy path (as in C06); reservoir overflow (>8096 samples) and expiry of finished requests are not exercised",
+        "proxy over shards: the answers of a store in the states 'k of n processed, not done' are the real handler's answers on the interrupted store "
+        "with persisted .qpr files moved out of the directory; 'all processed, not yet marked' is the real done answer with Done=false; a vector is "
+        "replayed by giving every shard's recorded answer to the real Ingestor.FetchAsyncSearchResult (a pure function of the answers); other shards "
+        "are abstract in the model (k processed of n, done) on the strength of the store-level invariants; a store that is down fails the whole fetch (no claim)",
         "one request at a time per directory; request ids that are prefixes of each other (glob <id>*.qpr) are not exercised",
     ]
